@@ -216,8 +216,8 @@ func mEnumerate(c *core.Ctx, cfg string, keepOneIn int, filter func(*wCase) bool
 
 func mOptions(name string, compile bool) b1.Options {
 	return b1.Options{Name: name, PerFile: 60, Family: "matching", Compile: compile, Local: universe.WorldLocalSrc,
-		Ext:       map[string]string{"wext": universe.WorldExtSrc},
-		TypeNames: []string{"NIn", "NIn2", "NOut", "WInt", "ArgS", "Emb", "Deep", "DeepOut", "wext.XIn", "wext.XCode", "wext.XEmb"}}
+		Ext:       map[string]string{"wext": strings.ReplaceAll(universe.WorldExtSrc, "%MOD%", "b1m"), "wdeep": universe.WorldDeepSrc},
+		TypeNames: []string{"NIn", "NIn2", "NOut", "WInt", "ArgS", "Emb", "Deep", "DeepOut", "wext.XIn", "wext.XCode", "wext.XEmb", "wext.HoldS", "wext.HoldD", "wdeep.TS", "wdeep.TD"}}
 }
 
 func mAllowedOutcomes(e *mEntry) []outcome {
@@ -558,6 +558,15 @@ func mSample(c *core.Ctx, ms []*wCase, cases []*b1.Case) {
 
 // C05: covering relation and warnings.
 func C05(c *core.Ctx) {
+	if c.Replay != "" {
+		if !replayB1(c, nil, nil, nil, mJudge(func(v *mVerdicts, m *wCase) ([]string, string) {
+			p := append([]string(nil), v.coverage...)
+			return append(p, v.warnings...), ""
+		}), false) {
+			replayUnsupported(c)
+		}
+		return
+	}
 	ms, cases := mCases(c, 2, nil)
 	st := b1.Run(c, mOptions("m05", false), cases, mJudge(func(v *mVerdicts, m *wCase) ([]string, string) {
 		nt := ""
@@ -584,6 +593,18 @@ func C05(c *core.Ctx) {
 
 // C06: explicit notations.
 func C06(c *core.Ctx) {
+	if c.Replay != "" {
+		if !replayB1(c, nil, nil, nil, mJudge(func(v *mVerdicts, m *wCase) ([]string, string) {
+			var p []string
+			if v.failed != "" {
+				p = append(p, v.failed)
+			}
+			return append(p, v.explicit...), ""
+		}), false) {
+			replayUnsupported(c)
+		}
+		return
+	}
 	ms, cases := mCases(c, 2, mHasNotes)
 	st := b1.Run(c, mOptions("m06", false), cases, mJudge(func(v *mVerdicts, m *wCase) ([]string, string) {
 		var p []string
